@@ -442,9 +442,21 @@ func c05Reset(s *apih.Server, r *c05Req) {
 		panic(fmt.Sprintf("c05: seeding %s: %v", r.ID, err))
 	}
 	if got := c05RowsMultiset(s); axCanonOf(got, 0) != r.beforeC {
-		panic(fmt.Sprintf("c05: seeded state of %s differs from the model: %s", r.ID, c05Short(refsem.DiffMultiset(got, r.before, false))))
+		// the harness' own seeding is an ordinary fault-free Transact on a server that served (and failed) requests
+		// before: if it does not store what it was given, that IS a finding (the request took effect differently
+		// from what was asked), not a harness accident. Recorded, then the state is rebuilt on the raw tables.
+		c05SeedMu.Lock()
+		if c05SeedFinding == "" {
+			c05SeedFinding = fmt.Sprintf("a fault-free Transact of %d inserts on an emptied store (issued after earlier requests on the same server had been made to fail) stored something else: %s", len(r.seed), c05Short(refsem.DiffMultiset(got, r.before, false)))
+		}
+		c05SeedMu.Unlock()
 	}
 }
+
+var (
+	c05SeedMu      sync.Mutex
+	c05SeedFinding string
+)
 
 // c05Classify names the state a relationship multiset is in.
 func c05Classify(r *c05Req, m map[refsem.TupleKey]int) string {
@@ -1418,25 +1430,31 @@ func TestC05(t *testing.T) {
 		run.Sample(map[string]any{"task": s.Task, "hit": s.Out.Hit, "detail": s.Out.Detail})
 	}
 	sizesI, sizesD := c05Sizes()
+	c05SeedMu.Lock()
+	if c05SeedFinding != "" {
+		run.Violation("fault-free-write-after-failed-requests-stored-something-else", c05SeedFinding, map[string]any{"family": "seeding"})
+	}
+	c05SeedMu.Unlock()
 	run.Finish(map[string]any{
-		"evaluations":           total,
-		"distinct_nontrivial":   nontrivial,
-		"rule":                  "one evaluation = one (request, position, kind) triple: statement k x {fail-before, fail-after, drop-connection}; batch position x invalid-tuple kind; statement k x {SIGKILL before, after}; reader boundary or boundary pair x database variant. Non-trivial = the fault/crash/pause was actually reached (hook fired at statement k / request rejected because of the invalid tuple / worker died by SIGKILL / reader obtained at least one observation at every chosen boundary)",
-		"exhaustive":            !timedOut.Load() && unstable == 0,
-		"requests":              len(reqs),
-		"insert_sizes":          sizesI,
-		"delete_sizes":          sizesD,
-		"n_per_request":         npr,
-		"evaluations_by_part":   counts,
-		"nontrivial_by_part":    hits,
-		"reader_observations":   h.obs,
-		"candidates":            len(cands),
-		"candidate_signatures":  sigCount,
-		"unstable_candidates":   unstable,
-		"crash_journal_modes":   variants,
-		"reader_db_variants":    []string{"wal-file", "shared-cache-memory"},
-		"reader_pairs_memory":   map[bool]string{true: "all requests", false: "requests with |I|+|D| <= 203 (quick tier)"}[ev.Thorough()],
-		"worker_subprocess":     "TestC05Worker (SIGKILL self inside the sqlfault hook)",
-		"statement_fault_kinds": []string{"fail-before", "fail-after", "drop-connection"},
+		"evaluations":                    total,
+		"distinct_nontrivial":            nontrivial,
+		"rule":                           "one evaluation = one (request, position, kind) triple: statement k x {fail-before, fail-after, drop-connection}; batch position x invalid-tuple kind; statement k x {SIGKILL before, after}; reader boundary or boundary pair x database variant. Non-trivial = the fault/crash/pause was actually reached (hook fired at statement k / request rejected because of the invalid tuple / worker died by SIGKILL / reader obtained at least one observation at every chosen boundary)",
+		"exhaustive":                     !timedOut.Load() && unstable == 0,
+		"requests":                       len(reqs),
+		"insert_sizes":                   sizesI,
+		"delete_sizes":                   sizesD,
+		"n_per_request":                  npr,
+		"evaluations_by_part":            counts,
+		"nontrivial_by_part":             hits,
+		"reader_observations":            h.obs,
+		"candidates":                     len(cands),
+		"candidate_signatures":           sigCount,
+		"unstable_candidates":            unstable,
+		"seeding_writes_stored_as_given": c05SeedFinding == "",
+		"crash_journal_modes":            variants,
+		"reader_db_variants":             []string{"wal-file", "shared-cache-memory"},
+		"reader_pairs_memory":            map[bool]string{true: "all requests", false: "requests with |I|+|D| <= 203 (quick tier)"}[ev.Thorough()],
+		"worker_subprocess":              "TestC05Worker (SIGKILL self inside the sqlfault hook)",
+		"statement_fault_kinds":          []string{"fail-before", "fail-after", "drop-connection"},
 	})
 }
